@@ -51,6 +51,7 @@ type idata struct {
 	entered bool
 	passed  bool // left the first gate
 	booked  bool // its bookkeeping section was run (adopted goroutines have no Done flag)
+	left    bool // it left the exit gate of its bookkeeping section
 }
 
 type wdata struct {
@@ -63,6 +64,7 @@ type sys struct {
 	c       *ctl.Ctl
 	w       *hist.W
 	variant bool
+	exitg   bool
 	rc      *routine.RoutineContainer
 	sc      *routine.StateRoutineContainer[uint64]
 	roots   []context.Context
@@ -101,13 +103,13 @@ func codeOf(err error) uint64 {
 }
 
 func newSys(w *hist.W, cfg []uint64) *sys {
-	s := &sys{c: ctl.New(), w: w, variant: cfg[0] == 1}
+	s := &sys{c: ctl.New(), w: w, variant: cfg[0] == 1, exitg: cfg[4] == 1}
 	var opts []routine.Option
 	for i := uint64(0); i < cfg[2]; i++ {
 		opts = append(opts, routine.WithExitCb(func(err error) { s.cblog = append(s.cblog, codeOf(err)) }))
 	}
 	if cfg[3] == 1 {
-		opts = append(opts, routine.WithBackoff(&scriptBO{durs: cfg[4:]}))
+		opts = append(opts, routine.WithBackoff(&scriptBO{durs: cfg[5:]}))
 	}
 	if s.variant {
 		var cmp func(a, b uint64) bool
@@ -131,6 +133,10 @@ func newSys(w *hist.W, cfg []uint64) *sys {
 	s.c.ShouldPark = func(a *ctl.Actor, pkg string, site int, obj any) bool {
 		switch a.Kind {
 		case kInst:
+			if pkg == "broadcast" && site == 1 {
+				d := a.Data.(*idata)
+				return s.exitg && d.booked && !d.left
+			}
 			return (pkg == "routine" && site == 0) || (pkg == "broadcast" && site == 0)
 		case kTimer, kWaiter:
 			return pkg == "broadcast" && site == 0
@@ -209,6 +215,8 @@ func (s *sys) obs(rets []uint64) []uint64 {
 			o = append(o, 3, d.arg, d.root, k)
 		case a.Parked() && !d.passed:
 			o = append(o, 1, 0, 0, 0)
+		case a.Parked() && d.booked:
+			o = append(o, 6, 0, 0, 0)
 		case a.Parked():
 			o = append(o, 4, 0, 0, 0)
 		default:
@@ -381,10 +389,21 @@ func (s *sys) exec(ev []uint64) (obs []uint64, ok bool) {
 			return nil, false
 		}
 		a := s.insts[i]
-		if a.Done() || !a.Parked() || !a.Data.(*idata).passed {
+		if a.Done() || !a.Parked() || !a.Data.(*idata).passed || a.Data.(*idata).booked {
 			return nil, false
 		}
 		a.Data.(*idata).booked = true
+		s.c.Step(a)
+	case 17:
+		i := int(ev[1])
+		if i >= len(s.insts) {
+			return nil, false
+		}
+		a := s.insts[i]
+		if !a.Parked() || !a.Data.(*idata).booked || a.Data.(*idata).left {
+			return nil, false
+		}
+		a.Data.(*idata).left = true
 		s.c.Step(a)
 	case 11:
 		time.Sleep(time.Duration(ev[1]) * time.Millisecond)
@@ -481,10 +500,12 @@ func pick(r *rand.Rand, xs []int) int { return xs[r.IntN(len(xs))] }
 
 // gen picks the next event among those the implementation allows now.
 func (s *sys) gen(r *rand.Rand, maxInst int) []uint64 {
-	var gate0, user, book, wgate, wblocked, wlive []int
+	var gate0, user, book, exitp, wgate, wblocked, wlive []int
 	for i, a := range s.insts {
 		d := a.Data.(*idata)
 		switch {
+		case a.Parked() && d.booked && !d.left:
+			exitp = append(exitp, i)
 		case a.Done() || d.booked:
 		case a.InUser() != 0:
 			user = append(user, i)
@@ -509,6 +530,16 @@ func (s *sys) gen(r *rand.Rand, maxInst int) []uint64 {
 	room := len(s.insts) < maxInst
 	for tries := 0; tries < 200; tries++ {
 		x := r.IntN(100)
+		if len(exitp) > 0 {
+			// an instance is parked after its bookkeeping section: let API calls race with its exit callbacks,
+			// but do not run WaitExited sections meanwhile (the monitor's reference machine learns of the exit from the report)
+			if x >= 89 && x < 95 {
+				continue
+			}
+			if x%3 == 0 {
+				return []uint64{17, uint64(pick(r, exitp))}
+			}
+		}
 		switch {
 		case x < 10 && room:
 			c := uint64(r.IntN(3))
@@ -585,7 +616,7 @@ func (s *sys) gen(r *rand.Rand, maxInst int) []uint64 {
 func (s *sys) count(ev, obs []uint64) {
 	names := map[uint64]string{1: "setcontext", 2: "setroutine", 3: "restart", 4: "setstate", 5: "swapvalue", 6: "setstateroutine",
 		7: "getstate", 8: "proceed", 9: "return", 10: "bookkeep", 11: "advance", 12: "timercb", 13: "waitexited", 14: "waitsection",
-		15: "waitcancel", 16: "waiterrch"}
+		15: "waitcancel", 16: "waiterrch", 17: "leave_exit_gate"}
 	s.w.Count("ev."+names[ev[0]], 1)
 	inUser, blocked := 0, 0
 	for _, a := range s.insts {
@@ -610,7 +641,7 @@ func (s *sys) count(ev, obs []uint64) {
 }
 
 func randomCfg(r *rand.Rand) []uint64 {
-	cfg := []uint64{uint64(r.IntN(2)), uint64(r.IntN(3)), 1 + uint64(r.IntN(2)), uint64(r.IntN(2))}
+	cfg := []uint64{uint64(r.IntN(2)), uint64(r.IntN(3)), 1 + uint64(r.IntN(2)), uint64(r.IntN(2)), b2u(r.IntN(3) == 0)}
 	if cfg[3] == 1 {
 		n := 1 + r.IntN(3)
 		for i := 0; i < n; i++ {
@@ -642,13 +673,13 @@ func runRandom(t *testing.T, w *hist.W, h int) {
 			w.Step(ev, obs)
 		}
 		w.Count(fmt.Sprintf("len.%02d", min(steps/10, 6)*10), 1)
-		w.Count(fmt.Sprintf("cfg.variant%d.backoff%d", cfg[0], cfg[3]), 1)
+		w.Count(fmt.Sprintf("cfg.variant%d.backoff%d.exitgate%d", cfg[0], cfg[3], cfg[4]), 1)
 	})
 }
 
 func runFixed(t *testing.T, w *hist.W, id string, cfg []uint64, evs [][]uint64) {
 	synctest.Test(t, func(t *testing.T) {
-		if len(cfg) < 4 {
+		if len(cfg) < 5 {
 			return
 		}
 		s := newSys(w, cfg)
